@@ -101,7 +101,15 @@ pub fn specimen_cases(seed: u64) -> Vec<(String, ContCase, bool)> {
         ("medium-zstd".into(), medium_case(&mut rng), false),
         // three content packs all recorded with the empty location, joined with the other packs by tools::concat
         ("loose-concat".into(), loose_case(&mut rng), true),
+        // separate files, the first extra content pack is unavailable (file removed): the present ones must still be checked
+        ("twofiles-missing-extra".into(), missing_case(&mut rng), true),
     ]
+}
+
+fn missing_case(rng: &mut Rng) -> ContCase {
+    let mut c = loose_case(rng);
+    c.pkg = Pkg::TwoFiles;
+    c
 }
 
 fn loose_case(rng: &mut Rng) -> ContCase {
@@ -124,6 +132,13 @@ pub fn build_specimen(name: &str, case: &ContCase, small: bool, dir: &Path) -> R
         create_container(case, dir, "c.jbk", Arc::new(()))?
     };
     let _ = std::fs::remove_dir_all(dir.join("inputs"));
+    let mut created = created;
+    if name == "twofiles-missing-extra" {
+        // pack id 2 goes missing
+        let gone = dir.join("extra2.jbkc");
+        let _ = std::fs::remove_file(&gone);
+        created.files.retain(|f| *f != gone);
+    }
     let mut files = vec![];
     for f in &created.files {
         let bytes = std::fs::read(f).map_err(|e| e.to_string())?;
